@@ -264,14 +264,24 @@ func (e *Env) Run(idx int, c *Case) []Mismatch {
 		judge("QueryIdsC", guard(func() ([]string, int64, error) { return st.QueryIdsC(tx, q) }), c.Ids, c.Count, true, true, "C01")
 		// a parsed query is a value: running it must not consume it (the same object once more gives the same answer)
 		judge("QueryIdsC-again", guard(func() ([]string, int64, error) { return st.QueryIdsC(tx, q) }), c.Ids, c.Count, true, true, "C01")
-		q2, _ := ast.Parse(st, text)
+		var q2, q3 ast.Query
+		if pr2 := guard(func() ([]string, int64, error) {
+			var err error
+			if q2, err = ast.Parse(st, text); err == nil {
+				q3, err = ast.Parse(st, text)
+			}
+			return nil, 0, err
+		}); pr2.err != nil || pr2.pan != nil {
+			// the same text parsed a moment ago: parsing it again has to give the same verdict
+			judge("Parse-again", pr2, c.Ids, c.Count, false, false, "C01")
+			return nil
+		}
 		if eb := st.GetEntitiesBucket(tx); eb != nil { // (no entities bucket in a store nothing was ever written to)
 			judge("QueryWithCursorC", guard(func() ([]string, int64, error) {
 				return st.QueryWithCursorC(tx, eb.OpenCursor, q2)
 			}), c.Ids, c.Count, true, true, "C01")
 		}
 		if len(sortSpec) == 0 {
-			q3, _ := ast.Parse(st, text)
 			judge("IterateIds", guard(func() ([]string, int64, error) {
 				var ids []string
 				for cur := st.IterateIds(tx, q3); cur.IsValid(); cur.Next() {
